@@ -17,6 +17,28 @@ Proof. vm_compute. reflexivity. Qed.
 Lemma tbl_ns : ibb_ns = str "http://jabber.org/protocol/ibb".
 Proof. vm_compute. reflexivity. Qed.
 
+(* Statement order of handlePayload (read from the AST): the wake-up of a
+   pending Read is an unconditional top-level statement after the append to the
+   read buffer, and no successful return lies between the two. Whatever the
+   carrier, an accepted packet reaches the notify; this is what lets the model
+   make the notify part of the deliver step for both carriers. (Two error
+   returns lie in between: the buffer write and the acknowledgement failing.) *)
+Lemma tbl_notify_on_every_success_path :
+  ibb_payload_notify_unconditional = true /\ ibb_payload_success_returns_before_notify = 0.
+Proof. split; reflexivity. Qed.
+
+(* rmStream deletes the entry of a session identifier only if it still refers
+   to the connection being closed; Close and closeNoNotify reach closeRead
+   (the only caller of rmStream) only after markClosed has succeeded, so a
+   second Close on a closed connection returns before it. The model's tbl_rm
+   and the early return of ECloseLocal on a closed connection rest on this. *)
+Lemma tbl_unregister_is_guarded :
+  ibb_rmstream_guarded = true /\
+  ibb_close_closeread_after_markclosed = true /\
+  ibb_closenonotify_closeread_after_markclosed = true /\
+  ibb_closeread_call_sites = 2.
+Proof. repeat split; reflexivity. Qed.
+
 (* ===================================================================== *)
 (* 1. sender                                                              *)
 (* ===================================================================== *)
@@ -287,524 +309,6 @@ Proof.
 Qed.
 
 (* ===================================================================== *)
-(* 2. receiver                                                            *)
-(* ===================================================================== *)
-
-Lemma payload_conn_refused : forall c iq seq data e,
-  refusal c seq data = Some e -> payload_conn c iq seq data = (c, RErr e).
-Proof.
-  intros c iq seq data e H. unfold refusal in H. unfold payload_conn.
-  destruct (rc_rclosed c); [injection H as <-; reflexivity|].
-  destruct (negb (seq =? rc_seq c)%N); [injection H as <-; reflexivity|].
-  destruct (negb (fits c data)); [injection H as <-; reflexivity|].
-  destruct (decode_go data); [discriminate|injection H as <-; reflexivity].
-Qed.
-
-Lemma payload_conn_accepted : forall c iq seq data,
-  refusal c seq data = None ->
-  exists d, decode_go data = Some d /\
-    payload_conn c iq seq data =
-      (mkrc (rc_sid c) (rc_bs c) (seq_next (rc_seq c)) (rc_buf c ++ d) (rc_max c) (rc_registered c) (rc_rclosed c) (rc_werr c),
-       if iq then RAck else RSilent).
-Proof.
-  intros c iq seq data H. unfold refusal in H. unfold payload_conn.
-  destruct (rc_rclosed c); [discriminate|].
-  destruct (negb (seq =? rc_seq c)%N); [discriminate|].
-  destruct (negb (fits c data)); [discriminate|].
-  destruct (decode_go data) as [d|]; [|discriminate].
-  exists d. split; reflexivity.
-Qed.
-
-Lemma payload_conn_sid : forall c iq seq data, rc_sid (fst (payload_conn c iq seq data)) = rc_sid c.
-Proof.
-  intros c iq seq data. destruct (refusal c seq data) as [e|] eqn:E.
-  - rewrite (payload_conn_refused _ iq _ _ _ E). reflexivity.
-  - destruct (payload_conn_accepted _ iq _ _ E) as [d [_ ->]]. reflexivity.
-Qed.
-
-Lemma find_conn_sid : forall h sid c, find_conn h sid = Some c -> rc_sid c = sid.
-Proof.
-  induction h as [|c0 h IH]; intros sid c H; cbn [find_conn] in H; [discriminate|].
-  destruct (bytes_eqb (rc_sid c0) sid) eqn:E.
-  - injection H as <-. apply bytes_eqb_eq. exact E.
-  - apply IH. exact H.
-Qed.
-
-Lemma bytes_eqb_refl : forall a, bytes_eqb a a = true.
-Proof. intro a. apply bytes_eqb_eq. reflexivity. Qed.
-
-Lemma bytes_eqb_false : forall a b, bytes_eqb a b = false <-> a <> b.
-Proof.
-  intros a b. split.
-  - intros H E. apply bytes_eqb_eq in E. congruence.
-  - intro H. destruct (bytes_eqb a b) eqn:E; [apply bytes_eqb_eq in E; contradiction|reflexivity].
-Qed.
-
-Lemma update_same : forall h sid c, find_conn h sid = Some c -> update h sid (fun _ => c) = h.
-Proof.
-  induction h as [|c0 h IH]; intros sid c H; cbn [find_conn update] in *; [reflexivity|].
-  destruct (bytes_eqb (rc_sid c0) sid).
-  - injection H as <-. reflexivity.
-  - rewrite IH by exact H. reflexivity.
-Qed.
-
-(* updating the connection of s with a function that keeps its sid *)
-Lemma find_conn_update : forall h s sid f,
-  (forall c, find_conn h s = Some c -> rc_sid (f c) = rc_sid c) ->
-  find_conn (update h s f) sid =
-    if bytes_eqb s sid then option_map f (find_conn h sid) else find_conn h sid.
-Proof.
-  induction h as [|c0 h IH]; intros s sid f Hf; cbn [find_conn update].
-  - destruct (bytes_eqb s sid); reflexivity.
-  - destruct (bytes_eqb (rc_sid c0) s) eqn:E1.
-    + cbn [find_conn]. rewrite Hf by (cbn [find_conn]; rewrite E1; reflexivity).
-      apply bytes_eqb_eq in E1. rewrite E1.
-      destruct (bytes_eqb s sid) eqn:E2; reflexivity.
-    + cbn [find_conn].
-      assert (Hf' : forall c, find_conn h s = Some c -> rc_sid (f c) = rc_sid c).
-      { intros c Hc. apply Hf. cbn [find_conn]. rewrite E1. exact Hc. }
-      destruct (bytes_eqb (rc_sid c0) sid) eqn:E3.
-      * destruct (bytes_eqb s sid) eqn:E2; [|reflexivity].
-        apply bytes_eqb_eq in E2. apply bytes_eqb_eq in E3. apply bytes_eqb_false in E1. congruence.
-      * apply IH. exact Hf'.
-Qed.
-
-Lemma find_conn_app_new : forall h sid c,
-  find_conn (h ++ [c]) sid =
-    match find_conn h sid with Some c0 => Some c0 | None => if bytes_eqb (rc_sid c) sid then Some c else None end.
-Proof.
-  induction h as [|c0 h IH]; intros sid c; cbn [app find_conn].
-  - destruct (bytes_eqb (rc_sid c) sid); reflexivity.
-  - destruct (bytes_eqb (rc_sid c0) sid); [reflexivity|apply IH].
-Qed.
-
-Lemma buf_of_app_new : forall h sid s bs, buf_of (h ++ [new_conn s bs]) sid = buf_of h sid.
-Proof.
-  intros h sid s bs. unfold buf_of. rewrite find_conn_app_new.
-  destruct (find_conn h sid); [reflexivity|].
-  destruct (bytes_eqb (rc_sid (new_conn s bs)) sid); reflexivity.
-Qed.
-
-(* updates that keep the sid and the buffer do not change what is buffered *)
-Lemma buf_of_update_keep : forall h s sid f,
-  (forall c, rc_sid (f c) = rc_sid c) -> (forall c, rc_buf (f c) = rc_buf c) ->
-  buf_of (update h s f) sid = buf_of h sid.
-Proof.
-  intros h s sid f Hs Hb. unfold buf_of. rewrite find_conn_update by (intros; apply Hs).
-  destruct (bytes_eqb s sid); [|reflexivity].
-  destruct (find_conn h sid) as [c|]; [cbn; apply Hb|reflexivity].
-Qed.
-
-(* handlePayload at the level of the handler *)
-Lemma handle_payload_unknown : forall h iq sid seq data,
-  lookup h sid = None -> handle_payload h iq sid seq data = (h, RErr ItemNotFound).
-Proof. intros h iq sid seq data H. unfold handle_payload. rewrite H. reflexivity. Qed.
-
-Lemma lookup_find : forall h sid c, lookup h sid = Some c -> find_conn h sid = Some c.
-Proof.
-  intros h sid c H. unfold lookup in H. destruct (find_conn h sid) as [c0|]; [|discriminate].
-  destruct (rc_registered c0); [exact H|discriminate].
-Qed.
-
-Lemma handle_payload_refused : forall h iq sid seq data c e,
-  lookup h sid = Some c -> refusal c seq data = Some e ->
-  handle_payload h iq sid seq data = (h, RErr e).
-Proof.
-  intros h iq sid seq data c e Hl Hr. unfold handle_payload. rewrite Hl.
-  rewrite (payload_conn_refused _ iq _ _ _ Hr).
-  rewrite (update_same _ _ _ (lookup_find _ _ _ Hl)). reflexivity.
-Qed.
-
-Lemma handle_payload_accepted : forall h iq sid seq data c,
-  lookup h sid = Some c -> refusal c seq data = None ->
-  exists d, decode_go data = Some d /\
-    handle_payload h iq sid seq data =
-      (update h sid (fun _ => mkrc (rc_sid c) (rc_bs c) (seq_next (rc_seq c)) (rc_buf c ++ d) (rc_max c)
-                                   (rc_registered c) (rc_rclosed c) (rc_werr c)),
-       if iq then RAck else RSilent).
-Proof.
-  intros h iq sid seq data c Hl Hr. unfold handle_payload. rewrite Hl.
-  destruct (payload_conn_accepted _ iq _ _ Hr) as [d [Hd ->]].
-  exists d. split; [exact Hd|reflexivity].
-Qed.
-
-(* a refused packet changes nothing; the error is the one that corresponds to
-   the first reason in the order unknown/closed, sequence, size, encoding *)
-Theorem bad_packets_refused : forall h iq sid seq data,
-  (lookup h sid = None -> handle_payload h iq sid seq data = (h, RErr ItemNotFound)) /\
-  (forall c, lookup h sid = Some c ->
-     (rc_rclosed c = true -> handle_payload h iq sid seq data = (h, RErr ItemNotFound)) /\
-     (rc_rclosed c = false -> seq <> rc_seq c ->
-        handle_payload h iq sid seq data = (h, RErr UnexpectedRequest)) /\
-     (rc_rclosed c = false -> seq = rc_seq c -> fits c data = false ->
-        handle_payload h iq sid seq data = (h, RErr ResourceConstraint)) /\
-     (rc_rclosed c = false -> seq = rc_seq c -> fits c data = true -> decode_go data = None ->
-        handle_payload h iq sid seq data = (h, RErr BadRequest))).
-Proof.
-  intros h iq sid seq data. split; [apply handle_payload_unknown|].
-  intros c Hl. repeat split.
-  - intro Hc. apply (handle_payload_refused _ _ _ _ _ c); [exact Hl|]. unfold refusal. rewrite Hc. reflexivity.
-  - intros Hc Hs. apply (handle_payload_refused _ _ _ _ _ c); [exact Hl|]. unfold refusal. rewrite Hc.
-    apply N.eqb_neq in Hs. rewrite Hs. reflexivity.
-  - intros Hc Hs Hf. apply (handle_payload_refused _ _ _ _ _ c); [exact Hl|]. unfold refusal. rewrite Hc.
-    apply N.eqb_eq in Hs. rewrite Hs, Hf. reflexivity.
-  - intros Hc Hs Hf Hd. apply (handle_payload_refused _ _ _ _ _ c); [exact Hl|]. unfold refusal. rewrite Hc.
-    apply N.eqb_eq in Hs. rewrite Hs, Hf, Hd. reflexivity.
-Qed.
-
-(* whatever the packet: an error reply means the handler is exactly as before *)
-Theorem refused_leaves_state : forall h iq sid seq data h' e,
-  handle_payload h iq sid seq data = (h', RErr e) -> h' = h.
-Proof.
-  intros h iq sid seq data h' e H.
-  destruct (lookup h sid) as [c|] eqn:El.
-  - destruct (refusal c seq data) as [e0|] eqn:Er.
-    + rewrite (handle_payload_refused _ iq _ _ _ _ _ El Er) in H. injection H as <- _. reflexivity.
-    + destruct (handle_payload_accepted _ iq _ _ _ _ El Er) as [d [_ Hh]]. rewrite Hh in H.
-      destruct iq; discriminate.
-  - rewrite (handle_payload_unknown _ iq _ seq data El) in H. injection H as <- _. reflexivity.
-Qed.
-
-(* a packet that has none of the four defects is accepted *)
-Theorem good_packet_accepted : forall h iq sid seq data c d,
-  lookup h sid = Some c -> rc_rclosed c = false -> seq = rc_seq c -> fits c data = true ->
-  decode_go data = Some d ->
-  snd (handle_payload h iq sid seq data) = (if iq then RAck else RSilent) /\
-  buf_of (fst (handle_payload h iq sid seq data)) sid = rc_buf c ++ d.
-Proof.
-  intros h iq sid seq data c d Hl Hc Hs Hf Hd.
-  assert (Hr : refusal c seq data = None).
-  { unfold refusal. apply N.eqb_eq in Hs. rewrite Hc, Hs, Hf, Hd. reflexivity. }
-  destruct (handle_payload_accepted _ iq _ _ _ _ Hl Hr) as [d' [Hd' Hh]].
-  rewrite Hh. cbn [fst snd]. split; [reflexivity|].
-  unfold buf_of. rewrite find_conn_update.
-  - rewrite bytes_eqb_refl, (lookup_find _ _ _ Hl). cbn. congruence.
-  - intros c0 Hc0. cbn [rc_sid]. rewrite (lookup_find _ _ _ Hl) in Hc0. congruence.
-Qed.
-
-(* ---- the stream invariant over arbitrary event traces ---- *)
-
-Lemma h_step_stream : forall h e h1 o sid,
-  h_step h e = (h1, o) ->
-  reads_of sid [e] [o] ++ buf_of h1 sid = buf_of h sid ++ accepted_bytes sid [e] [o].
-Proof.
-  intros h e h1 o sid H. unfold accepted_bytes.
-  destruct e as [s bs acc|s bs lst|iq s seq data|s n|s max|s wacc|s|s]; cbn [h_step] in H.
-  - destruct acc; injection H as <- <-; cbn [reads_of accepted_packets map concat]; rewrite app_nil_r;
-      [apply buf_of_app_new|reflexivity].
-  - destruct lst; injection H as <- <-; cbn [reads_of accepted_packets map concat]; rewrite app_nil_r;
-      [apply buf_of_app_new|reflexivity].
-  - destruct (handle_payload h iq s seq data) as [h' r] eqn:Eh. injection H as <- <-.
-    cbn [reads_of accepted_packets app].
-    destruct (bytes_eqb s sid) eqn:Es.
-    + apply bytes_eqb_eq in Es. subst s.
-      destruct (lookup h sid) as [c|] eqn:El.
-      * destruct (refusal c seq data) as [e0|] eqn:Er.
-        -- rewrite (handle_payload_refused _ iq _ _ _ _ _ El Er) in Eh. injection Eh as <- <-.
-           cbn [is_ack andb app map concat]. rewrite app_nil_r. reflexivity.
-        -- destruct (handle_payload_accepted _ iq _ _ _ _ El Er) as [d [Hd Hh]]. rewrite Hh in Eh.
-           injection Eh as <- <-.
-           assert (Hack : is_ack (if iq then RAck else RSilent) = true) by (destruct iq; reflexivity).
-           rewrite Hack. cbn [andb app map concat]. unfold payload_of. cbn [p_data]. rewrite Hd, !app_nil_r.
-           unfold buf_of. rewrite find_conn_update.
-           ++ rewrite bytes_eqb_refl, (lookup_find _ _ _ El). reflexivity.
-           ++ intros c0 Hc0. cbn [rc_sid]. rewrite (lookup_find _ _ _ El) in Hc0. congruence.
-      * rewrite (handle_payload_unknown _ iq _ seq data El) in Eh. injection Eh as <- <-.
-        cbn [is_ack andb app map concat]. rewrite app_nil_r. reflexivity.
-    + cbn [andb app map concat]. rewrite app_nil_r.
-      unfold handle_payload in Eh. destruct (lookup h s) as [c|] eqn:El.
-      * destruct (payload_conn c iq seq data) as [c' r'] eqn:Ep. injection Eh as <- <-.
-        unfold buf_of. rewrite find_conn_update.
-        -- rewrite Es. reflexivity.
-        -- intros c0 Hc0. rewrite (lookup_find _ _ _ El) in Hc0. injection Hc0 as <-.
-           pose proof (payload_conn_sid c iq seq data) as Hs. rewrite Ep in Hs. exact Hs.
-      * injection Eh as <- <-. reflexivity.
-  - destruct (find_conn h s) as [c|] eqn:Ef.
-    + destruct (rc_buf c) as [|b0 br] eqn:Eb.
-      * destruct (rc_rclosed c); injection H as <- <-; cbn [reads_of accepted_packets map concat];
-          rewrite ?app_nil_r; destruct (bytes_eqb s sid); reflexivity.
-      * injection H as <- <-. cbn [reads_of accepted_packets map concat]. rewrite !app_nil_r.
-        unfold buf_of. rewrite find_conn_update by (intros; reflexivity).
-        destruct (bytes_eqb s sid) eqn:Es.
-        -- apply bytes_eqb_eq in Es. subst s. rewrite Ef. cbn [option_map take_read rc_buf].
-           rewrite Eb. apply firstn_skipn.
-        -- reflexivity.
-    + injection H as <- <-. cbn [reads_of accepted_packets map concat]. rewrite app_nil_r. reflexivity.
-  - injection H as <- <-. cbn [reads_of accepted_packets map concat]. rewrite app_nil_r.
-    apply buf_of_update_keep; intros; reflexivity.
-  - destruct (find_conn h s) as [c|].
-    + destruct (rc_rclosed c); [|destruct (rc_werr c); [|destruct wacc]]; injection H as <- <-;
-        cbn [reads_of accepted_packets map concat]; rewrite app_nil_r; try reflexivity.
-      apply buf_of_update_keep; intros; reflexivity.
-    + injection H as <- <-. cbn [reads_of accepted_packets map concat]. rewrite app_nil_r. reflexivity.
-  - destruct (lookup h s); injection H as <- <-; cbn [reads_of accepted_packets map concat]; rewrite app_nil_r;
-      [apply buf_of_update_keep; intros; reflexivity|reflexivity].
-  - injection H as <- <-. cbn [reads_of accepted_packets map concat]. rewrite app_nil_r.
-    apply buf_of_update_keep; intros; reflexivity.
-Qed.
-
-Lemma reads_of_cons : forall sid e es o os,
-  reads_of sid (e :: es) (o :: os) = reads_of sid [e] [o] ++ reads_of sid es os.
-Proof.
-  intros sid e es o os. destruct e; destruct o; cbn [reads_of]; rewrite ?app_nil_r; reflexivity.
-Qed.
-
-Lemma accepted_packets_cons : forall sid e es o os,
-  accepted_packets sid (e :: es) (o :: os) = accepted_packets sid [e] [o] ++ accepted_packets sid es os.
-Proof.
-  intros sid e es o os. destruct e; destruct o; cbn [accepted_packets]; rewrite ?app_nil_r; reflexivity.
-Qed.
-
-Lemma accepted_bytes_cons : forall sid e es o os,
-  accepted_bytes sid (e :: es) (o :: os) = accepted_bytes sid [e] [o] ++ accepted_bytes sid es os.
-Proof.
-  intros. unfold accepted_bytes. rewrite accepted_packets_cons, map_app, concat_app. reflexivity.
-Qed.
-
-(* Exactly once, in order, unmodified: at any point of any run - whatever bad
-   packets, packets for other sessions, reads, limits and closes are mixed in -
-   what the application has read from sid followed by what is buffered for it
-   is what was buffered at the start followed by the payloads of the accepted
-   packets. *)
-Theorem stream_integrity : forall es h h' os sid,
-  h_run h es = (h', os) ->
-  reads_of sid es os ++ buf_of h' sid = buf_of h sid ++ accepted_bytes sid es os.
-Proof.
-  induction es as [|e es IH]; intros h h' os sid H; cbn [h_run] in H.
-  - injection H as <- <-. unfold accepted_bytes. cbn. rewrite app_nil_r. reflexivity.
-  - destruct (h_step h e) as [h1 o] eqn:E1. destruct (h_run h1 es) as [h2 os2] eqn:E2.
-    injection H as <- <-.
-    rewrite reads_of_cons, accepted_bytes_cons, <- app_assoc, (IH _ _ _ sid E2), !app_assoc.
-    f_equal. apply (h_step_stream _ _ _ _ sid E1).
-Qed.
-
-Lemma payload_concat_pieces : forall ps b,
-  decode_go_pieces (map p_data ps) = Some b -> concat (map payload_of ps) = b.
-Proof.
-  induction ps as [|p rest IH]; intros b H; cbn [map decode_go_pieces] in H.
-  - injection H as <-. reflexivity.
-  - cbn [map concat]. unfold payload_of at 1.
-    destruct (decode_go (p_data p)) as [a|]; [|discriminate].
-    destruct (decode_go_pieces (map p_data rest)) as [b'|] eqn:Eb; [|discriminate].
-    injection H as <-. rewrite (IH b' eq_refl). reflexivity.
-Qed.
-
-(* Any interleaving: if, in a run, the packets accepted for sid are those of a
-   sender (in order; anything else may be mixed in and refused or go to other
-   sessions), then what the application reads followed by what is buffered is
-   what was buffered before followed by exactly the bytes the sender wrote. *)
-Theorem pipe_any_interleaving : forall es h h' os sid bs seq0 ops,
-  h_run h es = (h', os) ->
-  accepted_packets sid es os = sender bs seq0 ops ->
-  reads_of sid es os ++ buf_of h' sid = buf_of h sid ++ written ops.
-Proof.
-  intros es h h' os sid bs seq0 ops H Ha.
-  rewrite (stream_integrity _ _ _ _ sid H). f_equal. unfold accepted_bytes. rewrite Ha.
-  apply payload_concat_pieces. apply packets_carry_written.
-Qed.
-
-(* ---- in-order delivery to an open connection with room: everything is accepted ---- *)
-
-Lemma h_run_app : forall es1 es2 h,
-  h_run h (es1 ++ es2) =
-    (let '(h1, o1) := h_run h es1 in let '(h2, o2) := h_run h1 es2 in (h2, o1 ++ o2)).
-Proof.
-  induction es1 as [|e es1 IH]; intros es2 h; cbn [app h_run].
-  - destruct (h_run h es2); reflexivity.
-  - destruct (h_step h e) as [h1 o]. rewrite IH.
-    destruct (h_run h1 es1) as [h2 o1]. destruct (h_run h2 es2) as [h3 o2]. reflexivity.
-Qed.
-
-Lemma fits_unlimited : forall c data, (rc_max c <= 0)%Z -> fits c data = true.
-Proof.
-  intros c data H. unfold fits. destruct (0 <? rc_max c)%Z eqn:E; [|reflexivity].
-  apply Z.ltb_lt in E. lia.
-Qed.
-
-Lemma deliver_all_accepted : forall pieces h iq sid c seq b,
-  lookup h sid = Some c -> rc_rclosed c = false -> rc_seq c = seq -> (rc_max c <= 0)%Z ->
-  decode_go_pieces pieces = Some b ->
-  exists h' c',
-    h_run h (deliver iq sid (number seq pieces)) =
-      (h', repeat (OReply (if iq then RAck else RSilent)) (length pieces)) /\
-    lookup h' sid = Some c' /\ rc_buf c' = rc_buf c ++ b /\ rc_rclosed c' = false /\
-    (rc_max c' <= 0)%Z.
-Proof.
-  induction pieces as [|p rest IH]; intros h iq sid c seq b Hl Hc Hs Hm Hd.
-  - cbn in Hd. injection Hd as <-. exists h, c. cbn. rewrite app_nil_r. repeat split; assumption.
-  - cbn [decode_go_pieces] in Hd.
-    destruct (decode_go p) as [a|] eqn:Ea; [|discriminate].
-    destruct (decode_go_pieces rest) as [b'|] eqn:Eb; [|discriminate].
-    injection Hd as <-.
-    cbn [number deliver map p_seq p_data h_run h_step].
-    assert (Hr : refusal c seq p = None).
-    { unfold refusal. rewrite Hc, <- Hs, N.eqb_refl, (fits_unlimited _ _ Hm), Ea. reflexivity. }
-    destruct (handle_payload_accepted _ iq _ _ _ _ Hl Hr) as [d [Hd Hh]].
-    rewrite Ea in Hd. injection Hd as <-. rewrite Hh.
-    set (c1 := mkrc (rc_sid c) (rc_bs c) (seq_next (rc_seq c)) (rc_buf c ++ a) (rc_max c) (rc_registered c) (rc_rclosed c) (rc_werr c)).
-    set (h1 := update h sid (fun _ => c1)).
-    assert (Hl1 : lookup h1 sid = Some c1).
-    { unfold lookup, h1. rewrite find_conn_update.
-      - rewrite bytes_eqb_refl, (lookup_find _ _ _ Hl). cbn [option_map].
-        unfold c1. cbn [rc_registered]. unfold lookup in Hl.
-        rewrite (lookup_find _ _ _ Hl) in Hl. destruct (rc_registered c); [reflexivity|discriminate].
-      - intros c0 Hc0. rewrite (lookup_find _ _ _ Hl) in Hc0. injection Hc0 as <-. reflexivity. }
-    destruct (IH h1 iq sid c1 (seq_next seq) b' Hl1) as [h' [c' [Hrun [Hl' [Hb' [Hc' Hm']]]]]].
-    + unfold c1. cbn. exact Hc.
-    + unfold c1. cbn. rewrite Hs. reflexivity.
-    + unfold c1. cbn. exact Hm.
-    + reflexivity.
-    + exists h', c'. unfold deliver in Hrun. fold h1. rewrite Hrun. cbn [length repeat].
-      repeat split; try assumption. rewrite Hb'. unfold c1. cbn [rc_buf]. rewrite <- app_assoc. reflexivity.
-Qed.
-
-(* The pipe: the packets of any sender, delivered in order to an open
-   connection without a buffer limit, are all accepted and the connection's
-   buffer grows by exactly the bytes written. *)
-Theorem pipe_delivers_exactly : forall bs ops h iq sid c,
-  lookup h sid = Some c -> rc_rclosed c = false -> (rc_max c <= 0)%Z ->
-  exists h' c',
-    h_run h (deliver iq sid (sender bs (rc_seq c) ops)) =
-      (h', repeat (OReply (if iq then RAck else RSilent)) (length (sender bs (rc_seq c) ops))) /\
-    lookup h' sid = Some c' /\ rc_buf c' = rc_buf c ++ written ops /\ rc_rclosed c' = false.
-Proof.
-  intros bs ops h iq sid c Hl Hc Hm.
-  pose proof (packets_carry_written bs (rc_seq c) ops) as Hd. unfold sender in *. rewrite number_data in Hd.
-  destruct (deliver_all_accepted _ h iq sid c (rc_seq c) _ Hl Hc eq_refl Hm Hd) as [h' [c' [Hr [Hl' [Hb [Hc' _]]]]]].
-  exists h', c'. rewrite number_length. repeat split; assumption.
-Qed.
-
-(* ---- after the close: drain, then end-of-file ---- *)
-
-Lemma close_remote_known : forall h sid c,
-  lookup h sid = Some c ->
-  h_step h (ECloseRemote sid) = (update h sid set_rclosed, OReply RAck).
-Proof. intros h sid c H. cbn [h_step]. rewrite H. reflexivity. Qed.
-
-Lemma find_after_close : forall h sid c,
-  find_conn h sid = Some c -> find_conn (update h sid set_rclosed) sid = Some (set_rclosed c).
-Proof.
-  intros h sid c H. rewrite find_conn_update by (intros; reflexivity).
-  rewrite bytes_eqb_refl, H. reflexivity.
-Qed.
-
-(* a closed connection is no longer found by incoming packets *)
-Lemma lookup_after_close : forall h sid c,
-  find_conn h sid = Some c -> lookup (update h sid set_rclosed) sid = None.
-Proof.
-  intros h sid c H. unfold lookup. rewrite (find_after_close _ _ _ H). reflexivity.
-Qed.
-
-(* reading a closed connection with n > 0: the buffer in pieces of n, then
-   end-of-file, and never a blocked read *)
-Fixpoint drain_obs (n : nat) (fuel : nat) (buf : bytes) : list obs :=
-  match fuel with
-  | O => []
-  | S f => match buf with
-           | [] => [ORead [] true]
-           | _ => ORead (firstn n buf) false :: drain_obs n f (skipn n buf)
-           end
-  end.
-
-Lemma drain_closed : forall n fuel h sid c,
-  0 < n -> find_conn h sid = Some c -> rc_rclosed c = true -> length (rc_buf c) < fuel ->
-  exists h', h_run h (repeat (ERead sid n) (length (drain_obs n fuel (rc_buf c)))) =
-             (h', drain_obs n fuel (rc_buf c)) /\ buf_of h' sid = [].
-Proof.
-  intros n fuel. induction fuel as [|f IH]; intros h sid c Hn Hf Hc Hl; [lia|].
-  cbn [drain_obs]. destruct (rc_buf c) as [|b0 br] eqn:Eb.
-  - cbn [length repeat h_run h_step]. rewrite Hf, Eb, Hc. exists h. split; [reflexivity|].
-    unfold buf_of. rewrite Hf. exact Eb.
-  - rewrite <- Eb in *. cbn [length repeat h_run h_step]. rewrite Hf.
-    destruct (rc_buf c) as [|b1 br1] eqn:Eb1; [rewrite Eb in Eb1; discriminate|]. rewrite <- Eb1 in *.
-    set (h1 := update h sid (take_read n)).
-    assert (Hf1 : find_conn h1 sid = Some (take_read n c)).
-    { unfold h1. rewrite find_conn_update by (intros; reflexivity). rewrite bytes_eqb_refl, Hf. reflexivity. }
-    destruct (IH h1 sid (take_read n c) Hn Hf1) as [h' [Hrun Hb]].
-    + cbn. exact Hc.
-    + cbn [take_read rc_buf]. rewrite skipn_length.
-      assert (0 < length (rc_buf c)) by (rewrite Eb1; cbn; lia). lia.
-    + cbn [take_read rc_buf] in Hrun. rewrite Hrun. exists h'. split; [reflexivity|exact Hb].
-Qed.
-
-Lemma drain_obs_reads : forall n fuel buf sid,
-  0 < n -> length buf < fuel ->
-  reads_of sid (repeat (ERead sid n) (length (drain_obs n fuel buf))) (drain_obs n fuel buf) = buf.
-Proof.
-  intros n fuel. induction fuel as [|f IH]; intros buf sid Hn Hl; [lia|].
-  cbn [drain_obs]. destruct buf as [|b0 br] eqn:Eb.
-  - cbn. rewrite bytes_eqb_refl. reflexivity.
-  - rewrite <- Eb in *. cbn [length repeat reads_of]. rewrite bytes_eqb_refl, IH.
-    + apply firstn_skipn.
-    + exact Hn.
-    + rewrite skipn_length. assert (0 < length buf) by (rewrite Eb; cbn; lia). lia.
-Qed.
-
-Lemma drain_obs_last : forall n fuel buf,
-  0 < n -> length buf < fuel ->
-  exists pre, drain_obs n fuel buf = pre ++ [ORead [] true] /\
-              Forall (fun o => exists d, o = ORead d false /\ d <> []) pre.
-Proof.
-  intros n fuel. induction fuel as [|f IH]; intros buf Hn Hl; [lia|].
-  cbn [drain_obs]. destruct buf as [|b0 br] eqn:Eb.
-  - exists []. split; [reflexivity|constructor].
-  - rewrite <- Eb in *.
-    destruct (IH (skipn n buf) Hn) as [pre [Hp Hf]].
-    + rewrite skipn_length. assert (0 < length buf) by (rewrite Eb; cbn; lia). lia.
-    + exists (ORead (firstn n buf) false :: pre). rewrite Hp. split; [reflexivity|].
-      constructor; [|exact Hf]. exists (firstn n buf). split; [reflexivity|].
-      rewrite Eb. destruct n; [lia|]. cbn. discriminate.
-Qed.
-
-(* After a close request the peer's packets are refused, and the application
-   reads what remains and then end-of-file. *)
-Theorem close_then_drain : forall h sid c n,
-  0 < n -> lookup h sid = Some c ->
-  let h1 := fst (h_step h (ECloseRemote sid)) in
-  snd (h_step h (ECloseRemote sid)) = OReply RAck /\
-  (forall iq seq data, handle_payload h1 iq sid seq data = (h1, RErr ItemNotFound)) /\
-  exists k h' pre,
-    h_run h1 (repeat (ERead sid n) (S k)) = (h', pre ++ [ORead [] true]) /\
-    Forall (fun o => exists d, o = ORead d false /\ d <> []) pre /\
-    reads_of sid (repeat (ERead sid n) (S k)) (pre ++ [ORead [] true]) = rc_buf c.
-Proof.
-  intros h sid c n Hn Hl h1. unfold h1. rewrite (close_remote_known _ _ _ Hl). cbn [fst snd].
-  pose proof (lookup_find _ _ _ Hl) as Hf.
-  split; [reflexivity|]. split.
-  - intros iq seq data. apply handle_payload_unknown. apply (lookup_after_close _ _ _ Hf).
-  - pose proof (find_after_close _ _ _ Hf) as Hf1.
-    destruct (drain_closed n (S (length (rc_buf c))) _ sid (set_rclosed c) Hn Hf1 eq_refl) as [h' [Hrun _]];
-      [cbn; lia|].
-    cbn [set_rclosed rc_buf] in Hrun.
-    destruct (drain_obs_last n (S (length (rc_buf c))) (rc_buf c) Hn) as [pre [Hp Hall]]; [lia|].
-    pose proof (drain_obs_reads n (S (length (rc_buf c))) (rc_buf c) sid Hn) as Hreads.
-    rewrite Hp in Hrun, Hreads. rewrite app_length in Hrun, Hreads. cbn [length] in Hrun, Hreads.
-    rewrite Nat.add_1_r in Hrun, Hreads.
-    exists (length pre), h', pre. repeat split; [exact Hrun|exact Hall|apply Hreads; lia].
-Qed.
-
-(* ---- opening ---- *)
-
-Theorem open_only_if_accepted :
-  (forall r, open_succeeds r = true -> r = OpenResult) /\
-  (forall h sid bs, h_step h (EOpenLocal sid bs false) = (h, OOpen false)) /\
-  (forall h sid bs, lookup h sid = None ->
-     lookup (fst (h_step h (EOpenLocal sid bs false))) sid = None) /\
-  (forall h sid bs, h_step h (EOpenRemote sid bs false) = (h, OReply (RErr NotAcceptable))).
-Proof.
-  repeat split.
-  - intros r H. destruct r; [reflexivity|discriminate|discriminate].
-  - intros h sid bs H. cbn [h_step fst]. exact H.
-Qed.
-
-(* a stream nobody opened (or whose opening was refused) is unknown: its
-   packets and close requests are refused with item-not-found *)
-Theorem unopened_is_unknown : forall iq sid seq data,
-  h_step [] (EData iq sid seq data) = ([], OReply (RErr ItemNotFound)) /\
-  h_step [] (ECloseRemote sid) = ([], OReply (RErr ItemNotFound)).
-Proof. intros. split; reflexivity. Qed.
-
-(* ===================================================================== *)
 (* 3. control path                                                        *)
 (* ===================================================================== *)
 
@@ -853,7 +357,7 @@ Ltac inv_fin Hs Hc Hr Hw Hn :=
 Lemma lstep_inv : forall s l s', linv s -> lstep s l = Some s' -> linv s'.
 Proof.
   intros s l s' [Hs Hc Hr Hw Hn] H. unfold lstep in H.
-  destruct l as [n| | |d|]; destruct (l_pc s) as [|m|m|m o] eqn:Epc; try discriminate;
+  destruct l as [n| | |iq d|]; destruct (l_pc s) as [|m|m|m o] eqn:Epc; try discriminate;
     cbn [pc_n] in Hn.
   - (* LStart *)
     destruct (n =? 0) eqn:E0; [discriminate|]. injection H as <-.
@@ -928,7 +432,7 @@ Theorem eof_only_after_close : forall tr s l d,
 Proof.
   intros tr s l d H Ho. pose proof (linv_reachable _ _ H) as [Hs Hc Hr Hw Hn].
   unfold step_obs, lstep in Ho.
-  destruct l as [n| | |d0|]; destruct (l_pc s) as [|m|m|m o] eqn:Epc; try discriminate.
+  destruct l as [n| | |iq0 d0|]; destruct (l_pc s) as [|m|m|m o] eqn:Epc; try discriminate.
   - destruct (n =? 0); [discriminate|]. unfold read_locked in Ho.
     destruct (l_buf s); cbn in Ho; discriminate.
   - destruct (l_tok s); [cbn in Ho; discriminate|]. destruct (l_closed s); cbn in Ho; discriminate.
@@ -938,10 +442,10 @@ Proof.
       injection Ho as <-. repeat split; try reflexivity.
       * apply (Hw m). reflexivity.
       * rewrite <- Hs, app_nil_r. reflexivity.
-  - destruct (l_closed s); cbn in Ho; discriminate.
-  - destruct (l_closed s); cbn in Ho; discriminate.
-  - destruct (l_closed s); cbn in Ho; discriminate.
-  - destruct (l_closed s); cbn in Ho; discriminate.
+  - destruct (l_closed s); destruct iq0; cbn in Ho; discriminate.
+  - destruct (l_closed s); destruct iq0; cbn in Ho; discriminate.
+  - destruct (l_closed s); destruct iq0; cbn in Ho; discriminate.
+  - destruct (l_closed s); destruct iq0; cbn in Ho; discriminate.
 Qed.
 
 (* What Read returns without end-of-file is a non-empty prefix of the buffer;
@@ -959,7 +463,7 @@ Proof.
     - destruct n; [congruence|]. cbn. discriminate.
     - exists (skipn n (b0 :: br)). symmetry. apply firstn_skipn. }
   intros l d Ho. unfold step_obs, lstep in Ho.
-  destruct l as [n| | |d0|]; destruct (l_pc s) as [|m|m|m o] eqn:Epc; try discriminate.
+  destruct l as [n| | |iq0 d0|]; destruct (l_pc s) as [|m|m|m o] eqn:Epc; try discriminate.
   - destruct (n =? 0) eqn:E0; [discriminate|]. apply (Hrl n); [apply Nat.eqb_neq; exact E0|exact Ho].
   - destruct (l_tok s); [cbn in Ho; discriminate|]. destruct (l_closed s); cbn in Ho; discriminate.
   - assert (Hm : m <> 0) by (apply Hn; reflexivity).
@@ -968,18 +472,18 @@ Proof.
     injection Ho as <-. split.
     + destruct m; [congruence|]. cbn. discriminate.
     + exists (skipn m (b0 :: br)). symmetry. apply firstn_skipn.
-  - destruct (l_closed s); cbn in Ho; discriminate.
-  - destruct (l_closed s); cbn in Ho; discriminate.
-  - destruct (l_closed s); cbn in Ho; discriminate.
-  - destruct (l_closed s); cbn in Ho; discriminate.
+  - destruct (l_closed s); destruct iq0; cbn in Ho; discriminate.
+  - destruct (l_closed s); destruct iq0; cbn in Ho; discriminate.
+  - destruct (l_closed s); destruct iq0; cbn in Ho; discriminate.
+  - destruct (l_closed s); destruct iq0; cbn in Ho; discriminate.
 Qed.
 
 (* after the close nothing is delivered any more *)
-Theorem closed_refuses : forall s d s',
-  l_closed s = true -> lstep s (LDeliver d) = Some s' ->
+Theorem closed_refuses : forall s iq d s',
+  l_closed s = true -> lstep s (LDeliver iq d) = Some s' ->
   l_buf s' = l_buf s /\ l_delivered s' = l_delivered s /\ hd_error (l_log s') = Some BRefused.
 Proof.
-  intros s d s' Hc H. unfold lstep in H. rewrite Hc in H.
+  intros s iq d s' Hc H. unfold lstep in H. rewrite Hc in H.
   destruct (l_pc s); injection H as <-; repeat split; reflexivity.
 Qed.
 
@@ -990,7 +494,7 @@ Definition lrun_pinned := @run lstate label lstep_pinned.
 Theorem pinned_lost_wakeup :
   exists tr s, lrun_pinned l_init tr = Some s /\ reader_blocked s = true /\ l_buf s <> [].
 Proof.
-  exists [LStart 4; LDeliver (str "ab"); LWait].
+  exists [LStart 4; LDeliver false (str "ab"); LWait].
   eexists. split; [vm_compute; reflexivity|]. split; [reflexivity|discriminate].
 Qed.
 
@@ -998,6 +502,6 @@ Theorem pinned_eof_before_close :
   exists tr s, lrun_pinned l_init tr = Some s /\
                hd_error (l_log s) = Some (BReturned [] true) /\ l_closed s = false.
 Proof.
-  exists [LStart 4; LWait; LDeliver []; LResume].
+  exists [LStart 4; LWait; LDeliver true []; LResume].
   eexists. split; [vm_compute; reflexivity|]. split; reflexivity.
 Qed.
